@@ -176,6 +176,8 @@ func checkC03(c *Ctx, r *Report) {
 		}
 	}
 	c03Coverage(c, r, crc)
+	c03Constants(c, r, crc)
+	r.floor("R3.4", 1)
 	// CRC-verifying entry points: every exported function of the package taking a frame that
 	// calls CRC16 itself
 	nver := 0
@@ -500,4 +502,101 @@ func init() {
 			r.controls["C03/R3.0-negative-control"] = false
 		}
 	}
+}
+
+// c03Constants: R3.4 — necessary conditions on the checksum routine's constants (its arithmetic
+// as a whole is NOT decided): the 16-bit accumulator starts from the constant 0xFFFF; the
+// routine either uses the reflected polynomial 0xA001 in a shift-by-one loop or indexes a
+// constant 256-entry table, and such a table must equal the table that polynomial defines
+// (entry i = i folded 8 times: e = e&1 != 0 ? e>>1 ^ 0xA001 : e>>1). The reference table is
+// computed by the checker from the specification's polynomial; nothing of /repo is executed.
+func c03Constants(c *Ctx, r *Report, crc *ssa.Function) {
+	id := fnID(crc)
+	r.instance("R3.4", 1)
+	consts := map[int64]bool{}
+	var tables []*ssa.Global
+	for _, b := range crc.Blocks {
+		for _, in := range b.Instrs {
+			for _, op := range in.Operands(nil) {
+				if op == nil || *op == nil {
+					continue
+				}
+				if k, ok := (*op).(*ssa.Const); ok && k.Value != nil && isIntType(k.Type()) {
+					consts[k.Int64()] = true
+				}
+				if g, ok := (*op).(*ssa.Global); ok {
+					if pt, ok := g.Type().(*types.Pointer); ok {
+						if _, isArr := pt.Elem().Underlying().(*types.Array); isArr {
+							tables = append(tables, g)
+						}
+					}
+				}
+			}
+		}
+	}
+	pos := c.pos(crc.Pos())
+	if consts[0xffff] {
+		r.ok("R3.4", id, "the accumulator's initial value 0xFFFF occurs in the routine", pos, true)
+	} else {
+		r.fail("R3.4", id, "the initial value 0xFFFF of the Modbus CRC does not occur in the routine", pos, "", "crc-init")
+	}
+	if len(tables) == 0 {
+		if consts[0xA001] {
+			r.ok("R3.4", id, "the reflected polynomial 0xA001 occurs in the routine (bitwise form)", pos, true)
+		} else {
+			r.fail("R3.4", id, "neither the reflected polynomial 0xA001 nor a lookup table occurs in the routine", pos, "", "crc-polynomial")
+		}
+		return
+	}
+	for _, g := range tables {
+		vals, ok := globalArrayConsts(c, "packet", g.Name())
+		if !ok || len(vals) != 256 || globalWrittenOutsideInit(c, g) {
+			r.undecided("R3.4", id, "lookup table "+g.Name()+" is not a constant 256-entry composite literal that is never written", pos)
+			continue
+		}
+		bad := -1
+		for i := 0; i < 256; i++ {
+			e := uint16(i)
+			for k := 0; k < 8; k++ {
+				if e&1 != 0 {
+					e = e>>1 ^ 0xA001
+				} else {
+					e >>= 1
+				}
+			}
+			if vals[i] != int64(e) && bad < 0 {
+				bad = i
+			}
+		}
+		if bad < 0 {
+			r.ok("R3.4", id, "lookup table "+g.Name()+" equals the 256-entry table of the reflected polynomial 0xA001", pos, true)
+		} else {
+			r.fail("R3.4", id, fmt.Sprintf("lookup table %s differs from the table of polynomial 0xA001 at index %d", g.Name(), bad), pos, fmt.Sprintf("entry %d is %#04x", bad, vals[bad]), fmt.Sprintf("crc-table:%d", bad))
+		}
+	}
+}
+
+// globalWrittenOutsideInit: some function other than the package initialiser stores to the
+// global or to an element/field of it, or takes a slice of it (which could be written through).
+func globalWrittenOutsideInit(c *Ctx, g *ssa.Global) bool {
+	for _, fn := range c.allFuncs("packet") {
+		if fn.Name() == "init" {
+			continue
+		}
+		for _, b := range fn.Blocks {
+			for _, in := range b.Instrs {
+				switch x := in.(type) {
+				case *ssa.Store:
+					if globalBase(x.Addr, 0, map[ssa.Value]bool{}) == g {
+						return true
+					}
+				case *ssa.Slice:
+					if x.X == ssa.Value(g) {
+						return true
+					}
+				}
+			}
+		}
+	}
+	return false
 }
